@@ -176,6 +176,16 @@ func renderExpr(toks []tok, lits []dec) (string, error) {
 				} else {
 					st = append(st, digits(d.Dig))
 				}
+			case "x", "xf":
+				if li >= len(lits) {
+					return "", fmt.Errorf("literal table too short")
+				}
+				d := digits(lits[li].Dig)
+				li++
+				if t.O == "xf" {
+					d += ".0"
+				}
+				st = append(st, d)
 			case "r":
 				li++
 				st = append(st, strconv.QuoteRune(rune(t.N)))
@@ -338,6 +348,8 @@ func (k *kase) renderUse() (prog, error) {
 	var body []string
 	val := "" // expression whose value is printed
 	switch k.Ctx {
+	case "conv":
+		val = fmt.Sprintf("%s(%s)", K, e)
 	case "constdecl":
 		body = []string{fmt.Sprintf("const c %s = %s", K, e)}
 		val = "c"
